@@ -4,6 +4,8 @@ package c20
 import (
 	"encoding/json"
 	"fmt"
+	"math"
+	"math/big"
 	"os"
 	"sort"
 	"strings"
@@ -26,7 +28,7 @@ import (
 
 func TestMain(m *testing.M) { rec.Main(m) }
 
-const rule = "block sequences over generated params (1-4 reward entries, repeated/unsorted denominations, zero and over-pool amounts, " +
+const rule = "block sequences over generated params (1-4 reward entries, repeated/unsorted denominations, zero and over-pool amounts, pools from a few units to 2^200 incl. real-chain scale and the int64/uint64 limits, " +
 	"denominations absent from the pool), pool top-ups, vesting toggles; non-trivial = a sequence in which a pool runs dry mid-way " +
 	"(reward > remaining > 0 at some block) or params change between two vesting blocks; distinct by (denom multiset shape, dry-run point, change kinds)"
 
@@ -116,8 +118,24 @@ func runSchedule(t *rapid.T, r *rec.Recorder) {
 	t.Repeat(map[string]func(*rapid.T){
 		"topUp": func(t *rapid.T) {
 			d := rapid.SampledFrom(denoms[:4]).Draw(t, "denom")
-			amt := rapid.Int64Range(1, 5000).Draw(t, "amount")
-			coins := sdk.NewCoins(sdk.NewInt64Coin(d, amt))
+			// pool sizes of every magnitude the bank module can hold: a few units, real-chain scale (1e18 base units per coin),
+			// around the int64 / uint64 limits, and far beyond (supply stays well below sdk.Int's 2^255)
+			var amt sdk.Int
+			switch rapid.IntRange(0, 9).Draw(t, "amountKind") {
+			case 0, 1, 2, 3, 4:
+				amt = sdk.NewInt(rapid.Int64Range(1, 5000).Draw(t, "amount"))
+			case 5:
+				amt = sdk.NewInt(rapid.Int64Range(1, 500).Draw(t, "coins")).Mul(sdk.NewIntWithDecimal(1, 18))
+			case 6:
+				amt = sdk.NewIntFromUint64(1 << 63).AddRaw(rapid.Int64Range(-2, 2).Draw(t, "aroundInt64"))
+			case 7:
+				amt = sdk.NewIntFromUint64(math.MaxUint64).AddRaw(rapid.Int64Range(-1, 3).Draw(t, "aroundUint64"))
+			case 8:
+				amt = sdk.NewIntWithDecimal(1, rapid.IntRange(19, 40).Draw(t, "decimals"))
+			default:
+				amt = sdk.NewIntFromBigInt(new(big.Int).Lsh(big.NewInt(1), uint(rapid.IntRange(64, 200).Draw(t, "bits"))))
+			}
+			coins := sdk.NewCoins(sdk.NewCoin(d, amt))
 			kit.Must(app.BankKeeper.MintCoins(ctx, aggregatetypes.ModuleName, coins), "mint")
 			kit.Must(app.BankKeeper.SendCoinsFromModuleToModule(ctx, aggregatetypes.ModuleName, rvestingtypes.ModuleName, coins), "fund pool")
 			history = append(history, stepLog{Op: "topUp", Arg: coins.String()})
